@@ -254,10 +254,13 @@ class Ctx:
             meta.setdefault("exit", self.exit_rel)
         if getattr(self, "pc_mark", None) is not None:
             meta.setdefault("pc_mark", self.pc_mark)
+        done = []
         for part in parts:
-            ob = Obligation(clause, part, list(self.pc), tuple(k for k, _ in self.trail), meta, list(self.spec_apps))
+            # (a later conjunct may use the earlier ones: proving A, then B from A, proves A and B)
+            ob = Obligation(clause, part, list(self.pc) + done, tuple(k for k, _ in self.trail), meta, list(self.spec_apps))
             ob.entry = getattr(self, "entry_args", None)
             self.obligations.append(ob)
+            done = done + [part]
         if assume_after:
             self.assume(g)
 
